@@ -1636,6 +1636,26 @@ func (h *c3H) tree(tab *c3Table, p *parser2.Parser[string], e *c3E, keep bool) {
 					h.replay(tab, "valid", text, map[string]any{"comfort": true, "intended_tokens": c3ToksModel(r.toks), "tokens": c3ToksModel(real), "panic": pan}))
 			}
 		}
+		// strict mode (this parser has no comfort mode): a complete expression followed by a further operand has a trailing token,
+		// also when a superscript exponent stands in between (the scanner writes `²` as `^ 2`; only comfort mode may put a `*`
+		// behind it - round-5 seed C03-15: the merged superscript case marked the digit as a number in strict mode too)
+		if r.name == "min" && rng.Intn(4) == 0 {
+			sup := string([]rune("⁰¹²³⁴⁵⁶⁷⁸⁹")[rng.Intn(10)])
+			v := c3PoolVars[rng.Intn(len(c3PoolVars))]
+			for _, tail := range []string{sup + " " + v, sup + v, sup + " 3", sup + "\n" + v, sup + " " + v + sup, " " + v, sup + sup + " " + v} {
+				mt := text + tail
+				impl := c3RunParse(p, h.ids, mt)
+				c.Case(tab.opsField()+"|"+tab.unaryField()+"|strict|"+mt, nontriv)
+				c.Count("strict-juxtaposition")
+				switch {
+				case impl.panic != "":
+					c.Violation(h.panicSig(tab), "Parse panicked: "+impl.panic, h.replay(tab, "mutant", mt, map[string]any{"intended": intended}))
+				case impl.ok:
+					c.Violation("strict-juxtaposition-accepted", "without comfort mode an operand behind a complete expression is a trailing token and must be rejected (a superscript exponent in between does not change that); it was accepted as "+impl.show(),
+						h.replay(tab, "mutant", mt, map[string]any{"intended": intended, "impl": impl.show()}))
+				}
+			}
+		}
 		if rng.Intn(5) < 2 {
 			tt := tab.text(r.toks, rng, true)
 			real, pan := c3Tokens(p, tt)
